@@ -106,8 +106,38 @@ def check_C03(ctx):
     return _proc_layer_check(ctx, {'C03'}, 'corrected vector in range, idempotent, describes the instance, injective')
 
 
+# the property's quantifier includes fixed variables: the enumeration clauses of the history layer (Mon_Hist keeps the
+# specification's fixed map; complete encoder) are C04's clauses as well
+C04_WITH_FIXED = {'C15.restricted_design_not_in_original': 'C04.row_outside_restricted_reference_with_fixed_variables',
+                  'C15.original_design_missing': 'C04.admissible_architecture_missing_with_fixed_variables',
+                  'C15.duplicate_design': 'C04.duplicate_row_with_fixed_variables',
+                  'C15.count_disagrees': 'C04.count_differs_from_rows_with_fixed_variables',
+                  'C15.declared_size_wrong': 'C04.declared_size_not_product_with_fixed_variables',
+                  'C15.enumeration_raised': 'C04.enumeration_raised_with_fixed_variables'}
+
+
 def check_C04(ctx):
-    return _proc_layer_check(ctx, {'C04'}, 'enumerated rows = admissible architectures, one each; counts')
+    res = _proc_layer_check(ctx, {'C04'}, 'enumerated rows = admissible architectures, one each; counts')
+    from harness import layer_hist
+    h = runner.memo('hist', ctx, lambda: layer_hist.run(ctx))
+    n = 0
+    for f in h['fails']:
+        if f['enc'] != 'complete':
+            continue
+        mine = [C04_WITH_FIXED[c[0]] for c in f['fails'] if c[0] in C04_WITH_FIXED]
+        if mine:
+            n += 1
+            res['violations'].append({'clause': mine[0], 'all_clauses': sorted(set(mine)), 'where': 'history %s' % json_short(f['hist']),
+                                      'payload': {'layer': 'hist', 'g': f['g'], 'enc': f['enc'], 'problem': f['problem'], 'hist': f['hist'],
+                                                  'alias': C04_WITH_FIXED}})
+    res['coverage']['with_fixed_variables'] = {'histories_replayed': h['n_traces'], 'problems': h['problems'],
+                                               'rule': 'every fix-only history (all combinations of fixed variables) and a sample of the other '
+                                                       'histories of the C05/C15 layer: after every fix / free the enumeration of the complete '
+                                                       'encoder is compared by TLC with the two filters of the unrestricted reference rows'}
+    res['coverage']['states'] += h['states']
+    res['coverage']['transitions'] += h['transitions']
+    res['coverage']['traces_validated_against_impl'] += h['n_traces']
+    return res
 
 
 def check_C07(ctx):
@@ -460,7 +490,9 @@ def replay_payload(payload):
         return layer_tl.replay(payload)
     if layer == 'hist':
         from harness import layer_hist
-        return layer_hist.replay(payload)
+        fails = layer_hist.replay(payload)
+        alias = payload.get('alias') or {}
+        return fails + [[alias[c[0]], c[1]] for c in fails if c[0] in alias]
     if layer == 'none':
         return []
     if layer == 'coding':
